@@ -77,6 +77,16 @@ def make_site(net, reqs):
                 raise shared_errors.setdefault(o[1], getattr(error, o[1])("shared-" + o[1]))
             if o[0] == "custom":
                 raise CustomRenderable(o[1], i)
+            if o[0] == "exc-wrapping":
+                # what a gateway lets escape when its upstream answered 4.xx/5.xx: an aiocoap error that is not a
+                # renderable one, carrying the *received* upstream response (its text must not leak either)
+                from aiocoap.message import Direction
+
+                up = aiocoap.Message(code=aiocoap.numbers.codes.Code(o[1]), payload=marker(i).encode())
+                up.direction = Direction.INCOMING
+                up.mid = 0x1234
+                up.token = b"up"
+                raise error.ResponseWrappingError(up)
             if o[0] == "exc":
                 import builtins
 
@@ -186,7 +196,7 @@ def run_case(case, want_trace=False):
             labels.add("exp-%s" % R.code_str(code))
             if rq["target"] == "resource":
                 labels.add("outcome-" + rq["outcome"][0] + ("-slow" if rq.get("delay") else ""))
-                if rq["outcome"][0] in ("exc", "ret", "custom", "msg-bad", "cre-shared") or rq["outcome"][0] == "cre":
+                if rq["outcome"][0] in ("exc", "exc-wrapping", "ret", "custom", "msg-bad", "cre-shared") or rq["outcome"][0] == "cre":
                     failing = True
             else:
                 labels.add(rq["target"])
@@ -211,7 +221,7 @@ def run_case(case, want_trace=False):
                 vio.append(V("C09/5.00-not-bare", "request %d %r: %s" % (i, rq, R.describe(f))))
         # no exception text on the wire for non-renderable failures
         for i, rq in enumerate(reqs):
-            if rq["target"] == "resource" and (rq["outcome"][0] in ("exc", "ret", "msg-bad") or (rq["outcome"][0] == "custom" and rq["outcome"][1] == "raises")):
+            if rq["target"] == "resource" and (rq["outcome"][0] in ("exc", "exc-wrapping", "ret", "msg-bad") or (rq["outcome"][0] == "custom" and rq["outcome"][1] == "raises")):
                 mk = marker(i).encode()
                 for w in wire:
                     if w["src"] == A and mk in w["data"]:
@@ -243,6 +253,7 @@ _outcome = st.one_of(
     st.tuples(st.just("msg-bad"), st.sampled_from(["strpayload", "negmaxage"])).map(list),
     st.tuples(st.just("cre-shared"), st.sampled_from(["NotFound", "BadRequest"])).map(list),
     st.tuples(st.just("cre-shared"), st.sampled_from(["NotFound", "BadRequest"])).map(list),
+    st.tuples(st.just("exc-wrapping"), st.sampled_from([132, 160, 163])).map(list),
 )
 
 
